@@ -955,6 +955,95 @@ def r_sendq(prog, R, E):
         r.require(nst >= 3, "%s: too few return states" % fname)
 
 
+def r_defer(prog, R, E):
+    r = R.rule("R-C01-DEFER", "while answers are being read from a connection no query is re-sent directly: every requeue under process_answer is deferred through the requeue array; ares_send_query only ever gets an unlinked query", floor=6,
+               analysis="A-WMC reachability without callbacks + argument check + must-precede")
+    pa = prog.func("process_answer")
+    # functions reachable from process_answer through direct calls, not descending into the (re)send primitives themselves
+    STOP = {"ares_requeue_query", "ares_send_query", "end_query"}
+    reach, work = {}, [pa]
+    while work:
+        f = work.pop()
+        if f.key in reach:
+            continue
+        reach[f.key] = f
+        if f.name in STOP:
+            continue
+        for b, i, c in f.calls():
+            t = prog.resolve(f, c)
+            if t is not None and t.file.startswith("src/lib/ares_") and not t.file.startswith(("src/lib/ares_buf",)):
+                work.append(t)
+    n = 0
+    for f in sorted(reach.values(), key=lambda x: x.key):
+        if f.name in STOP:
+            continue
+        for b, i, c in f.calls():
+            cal = c.get("callee")
+            if cal == "ares_requeue_query":
+                n += 1
+                a = strip(call_arg(c, 5))
+                k = "fn=%s requeue deferred" % f.name
+                pn = [p["n"] for p in f.params if "ares_array" in p["ty"] and p["ty"].count("*") == 2]
+                if a is not None and a.get("k") == "var" and a["n"] in pn:
+                    r.ok(k, f.loc(c["ln"]))
+                else:
+                    r.viol(k, f.name, f.loc(c["ln"]), "%s (reached from process_answer while read_answers still walks the connection's input) re-sends the query immediately (requeue array argument is %s): a failing re-send closes and frees the very connection being read" % (f.name, render(a)))
+            elif cal in ("ares_send_query", "handle_conn_error", "ares_close_connection", "ares_close_sockets"):
+                n += 1
+                r.viol("fn=%s no direct %s" % (f.name, cal), f.name, f.loc(c["ln"]), "%s is reached from process_answer and calls %s directly: the connection being read can be closed underneath read_answers" % (f.name, cal))
+    r.info["reach_from_process_answer"] = len(reach)
+    r.require(n >= 2, "no requeue call reachable from process_answer (anchor drift)")
+    # the deferral array is flushed only after the read loop is done with the connection buffer
+    ra = prog.func("read_answers")
+    loops = ra.natural_loops()
+    pcs = ra.calls_to("process_answer")
+    scs = ra.calls_to("ares_send_query")
+    if pcs and scs:
+        inner = None
+        for h, body in loops.items():
+            if pcs[0][0].id in body | {h}:
+                inner = body | {h}
+        if inner is not None and scs[0][0].id not in inner:
+            r.ok("flush after the read loop", ra.loc(scs[0][2]["ln"]))
+        else:
+            r.viol("flush after the read loop", ra.name, ra.loc(scs[0][2]["ln"]), "read_answers re-sends deferred queries inside the loop that is still parsing the connection's input buffer")
+    # every ares_send_query call gets a query that is linked to no connection
+    for f in sorted(prog.funcs.values(), key=lambda x: x.key):
+        for b, i, c in f.calls_to("ares_send_query"):
+            q = strip(call_arg(c, 1))
+            k = "fn=%s sends an unlinked query" % f.name
+            if q is None or q.get("k") != "var":
+                r.broke("%s: query argument of ares_send_query not a variable" % f.name)
+                continue
+            mf = MustFacts(f)
+            okq = None
+            # (a) unlinked here
+            for pb, pi, pc in f.calls_to("ares_query_remove_from_conn"):
+                if is_var(strip(call_arg(pc, 0)), q["n"]):
+                    doms = f.dominators()
+                    if (pb.id == b.id and pi < i) or (pb.id != b.id and pb.id in doms.get(b.id, ())):
+                        okq = "unlinked by ares_query_remove_from_conn in this function"
+            # (b) fresh
+            if okq is None:
+                for _, _, el in f.elements():
+                    if el["k"] == "asg" and is_var(strip(el["e"]["l"]), q["n"]):
+                        rr = strip(el["e"].get("r"))
+                        if rr is not None and rr.get("k") == "call":
+                            cn = f.call_by_id(rr["id"])[2] if rr.get("ref") and f.call_by_id(rr["id"]) else rr
+                            if cn.get("callee") in ("ares_malloc", "ares_malloc_zero"):
+                                okq = "freshly allocated"
+                            if cn.get("callee") == "ares_htable_szvp_get_direct" and f.name == "read_answers":
+                                # (c) taken from the deferral array: entries are appended only by ares_append_requeue, which unlinks first
+                                ap = prog.func("ares_append_requeue")
+                                ins = [x for x in ap.calls() if x[2].get("callee") in ("ares_array_insertdata_last", "ares_array_insert_last")]
+                                if ins and MustFacts(ap).passed_call(ins[0][0], ins[0][1], "ares_query_remove_from_conn"):
+                                    okq = "from the deferral array (ares_append_requeue unlinks before appending)"
+            if okq:
+                r.ok(k + " (%s)" % okq, f.loc(c["ln"]))
+            else:
+                r.viol(k, f.name, f.loc(c["ln"]), "%s hands ares_send_query a query that may still be linked to its previous connection: if the send fails, closing that connection requeues the same query a second time (double completion / use after free)" % f.name)
+
+
 def run(prog, R, tier):
     R.assume("re-entrant API inside completion callbacks: request entry points and ares_cancel (not ares_destroy, not server-list edits)")
     R.assume("container primitives in dsa/ do not run completion callbacks except through a destructor registered at creation (resolved per container instance)")
@@ -965,3 +1054,4 @@ def run(prog, R, tier):
     r_counted(prog, R, E)
     r_proto_uaf(prog, R, E, once)
     r_sendq(prog, R, E)
+    r_defer(prog, R, E)
